@@ -263,6 +263,39 @@ func flagMethodWrites(p *Prog, m *ssa.Function, sel func(b *ssa.BasicBlock) bool
 	return out, ""
 }
 
+// derefNamed: the named type behind T or *T.
+func derefNamed(t types.Type) *types.Named {
+	if pt, ok := t.Underlying().(*types.Pointer); ok {
+		t = pt.Elem()
+	}
+	n, _ := t.(*types.Named)
+	return n
+}
+
+// freshValue: v is an object allocated in fn or by a module function all of whose results are allocated by it.
+func freshValue(p *Prog, fn *ssa.Function, v ssa.Value, depth int) (bool, string) {
+	switch x := v.(type) {
+	case *ssa.Alloc:
+		return true, ""
+	case *ssa.Call:
+		if sc := x.Call.StaticCallee(); sc != nil && x.Call.Signature().Results().Len() == 1 {
+			return freshResult(p, sc, 0, depth+1)
+		}
+	case *ssa.Phi:
+		for _, ed := range x.Edges {
+			if ok, why := freshValue(p, fn, ed, depth+1); !ok {
+				return false, why
+			}
+		}
+		return len(x.Edges) > 0, "no value"
+	case *ssa.ChangeType:
+		return freshValue(p, fn, x.X, depth)
+	case *ssa.TypeAssert:
+		return false, "taken out of " + p.Env(fn).Term(x.X) + " at " + p.InstrPos(x)
+	}
+	return false, p.Env(fn).Term(v)
+}
+
 func c18r2(c *Ctx) {
 	const rule = "C18-R2"
 	c.Rule(rule, "the activation flag is `epoch >= activationEpoch` of the last confirmed epoch; epoch rows follow it, all others are constantly active", 36)
@@ -285,6 +318,7 @@ func c18r2(c *Ctx) {
 		return
 	}
 	var writer, reader *ssa.Function
+	flagByPointer := false
 	var flagField, epochField string
 	var baseType types.Type
 	for _, fn := range confirmed {
@@ -303,6 +337,11 @@ func c18r2(c *Ctx) {
 					continue
 				}
 				rt := e.Term(call.Call.Args[0])
+				if strings.HasPrefix(rt, "*"+recv+".") {
+					// the flag is held by pointer: each function object must own its flag object (checked below)
+					rt = strings.TrimPrefix(rt, "*")
+					flagByPointer = true
+				}
 				if !strings.HasPrefix(rt, recv+".") {
 					continue
 				}
@@ -415,6 +454,41 @@ func c18r2(c *Ctx) {
 		c.Fail(rule, "violation", FuncName(writer), construct, c.P.Pos(writer.Pos()), fmt.Sprintf("writer(false) stores %v; the reader tests == %d: a regression of the epoch would not deactivate", keysOf(wf), readC))
 	default:
 		c.OK(rule, FuncName(writer), construct, c.P.Pos(writer.Pos()), fmt.Sprintf("true -> %v, false -> %v, reader == %d", keysOf(wt), keysOf(wf), readC))
+	}
+	// a flag held by pointer: every store into that field puts an object there that was allocated for this function object
+	// (in the constructor or a helper that returns a new one) — a flag looked up in a package-level table is shared by every
+	// function that resolves to it, and one function's notification history then decides another's activation
+	if flagByPointer {
+		nst := 0
+		for _, fn := range c.P.Funcs {
+			if !c.P.InPkgs(fn, "builtInFunctions") {
+				continue
+			}
+			for _, b := range fn.Blocks {
+				for _, in := range b.Instrs {
+					st, ok := in.(*ssa.Store)
+					if !ok {
+						continue
+					}
+					fa, ok := st.Addr.(*ssa.FieldAddr)
+					if !ok || fieldName(fa.X.Type(), fa.Field) != flagField || !sameBase(fa.X.Type(), baseType) {
+						continue
+					}
+					nst++
+					construct := "own flag object: store into ." + flagField + " in " + fn.Name()
+					if fresh, why := freshValue(c.P, fn, st.Val, 0); fresh {
+						c.OK(rule, FuncName(fn), construct, c.P.InstrPos(st), "a newly allocated flag")
+					} else {
+						c.FailX(Oblig{Rule: rule, Func: FuncName(fn), Construct: construct, Pos: c.P.InstrPos(st), Kind: "violation",
+							Detail:   "the activation flag object put into the function is not allocated for it (" + why + "): functions that resolve to the same object overwrite each other's state — a function then reports active or inactive according to another one's last notification, not its own",
+							Expected: "one flag per function object (`&atomic.Flag{}` in the constructor)"})
+					}
+				}
+			}
+		}
+		if nst == 0 {
+			c.Anchor(rule, "a store of the flag object into ."+flagField)
+		}
 	}
 	// nothing else in builtInFunctions touches the flag
 	flagType := writer.Signature.Recv().Type()
